@@ -109,8 +109,50 @@ def parse_output(text, res):
     return res
 
 
+SLOT_DIR = "/tmp/verif_tlc_slots"
+NSLOTS = int(os.environ.get("VERIF_TLC_SLOTS", "20"))
+
+
+class _Slots:
+    """Machine-wide throttle on concurrent TLC JVMs (many checks may run at once):
+    `weight` of NSLOTS lock files are held while a JVM runs."""
+
+    def __init__(self, weight):
+        self.weight = max(1, min(weight, NSLOTS))
+        self.held = []
+
+    def __enter__(self):
+        import fcntl
+        import random
+        os.makedirs(SLOT_DIR, exist_ok=True)
+        while True:
+            order = list(range(NSLOTS))
+            random.shuffle(order)
+            for i in order:
+                if len(self.held) >= self.weight:
+                    break
+                f = open(os.path.join(SLOT_DIR, "slot%d" % i), "w")
+                try:
+                    fcntl.flock(f, fcntl.LOCK_EX | fcntl.LOCK_NB)
+                    self.held.append(f)
+                except OSError:
+                    f.close()
+            if len(self.held) >= self.weight:
+                return self
+            # could not get all: release and retry (avoids deadlock between heavy runs)
+            for f in self.held:
+                f.close()
+            self.held = []
+            time.sleep(0.5 + random.random())
+
+    def __exit__(self, *a):
+        for f in self.held:
+            f.close()
+        self.held = []
+
+
 def run(module, cfg, workdir, *, workers=16, env=None, simulate=None, depth=None, seed=None,
-        timeout=3600, dfs=False, heap="8g", coverage=False, extra=(), libs=(), cwd=None,
+        timeout=3600, dfs=False, heap="6g", coverage=False, extra=(), libs=(), cwd=None,
         deadlock=None, dump=None):
     """Run TLC on specs/<module>.tla (or an absolute path) with config cfg."""
     os.makedirs(workdir, exist_ok=True)
@@ -144,8 +186,10 @@ def run(module, cfg, workdir, *, workers=16, env=None, simulate=None, depth=None
     res.cmd = " ".join(cmd)
     t0 = time.time()
     try:
-        p = subprocess.run(cmd, cwd=cwd or workdir, env=e, stdout=subprocess.PIPE, stderr=subprocess.STDOUT,
-                           timeout=timeout, text=True, errors="replace")
+        with _Slots(1 if int(workers) <= 1 else 5):
+            t0 = time.time()
+            p = subprocess.run(cmd, cwd=cwd or workdir, env=e, stdout=subprocess.PIPE, stderr=subprocess.STDOUT,
+                               timeout=timeout, text=True, errors="replace")
         res.rc = p.returncode
         res.out = p.stdout
     except subprocess.TimeoutExpired as ex:
